@@ -24,28 +24,28 @@ pub const ALL: &[Meta] = &[
         text: "Information content of every term and kind is compared with -ln(n/N) computed from the reference model's inherited sets on every ontology of the C02 space (three different totals, each kind emptied in turn, a term linked to everything), and InformationContent::set_* is evaluated for every 0<=n<=N<=1024 (4096 thorough), at the u16 border and beyond it (refused or exact, also for 65 536 / 70 000 genes through the Builder), and for record counts sweeping across every power of two through Builder and decoder; non-negativity, finiteness and monotonicity along every edge are checked strictly.",
         note: "f32 comparison rtol 1e-5; range claims strict." },
     Meta { id: "C04", level: MC, design_ref: "DESIGN.md §3 C04", technique: "bounded exhaustive exploration: all DAGs x annotation patterns x all ordered term pairs x 8 algorithms x 3 kinds against reference formulas",
-        text: "All ordered pairs of terms of every DAG (<=4 quick, 5 thorough) under 16 annotation patterns are scored with all 8 built-in similarities x 3 kinds through HpoTerm::similarity_score, Builtins and the concrete structs, also on decoded graphs whose terms are flagged obsolete / replaced, on an ontology with 30 000 genes (information contents of 3e-5), on a chain of 300 terms and on sequences of ontologies built at the same address; values are compared with formulas evaluated on the reference model, and finiteness, non-negativity, symmetry and the documented special cases are checked strictly.",
+        text: "All ordered pairs of terms of every DAG (<=4 quick, 5 thorough) under 16 annotation patterns are scored with all 8 built-in similarities x 3 kinds through HpoTerm::similarity_score, Builtins (also selected by name) and the concrete structs, on overlapping record sets, on all six-term DAGs in topological numbering, also on decoded graphs whose terms are flagged obsolete / replaced, on an ontology with 30 000 genes (information contents of 3e-5), on a chain of 300 terms and on sequences of ontologies built at the same address; values are compared with formulas evaluated on the reference model, and finiteness, non-negativity, symmetry and the documented special cases are checked strictly.",
         note: "Reference formulas transcribed from the struct docs, calibrated on the two literals pinned in the crate's doc examples; f32 rtol 1e-5." },
     Meta { id: "C05", level: MC, design_ref: "DESIGN.md §3 C05", technique: "exhaustive enumeration of all small similarity matrices over a 3-letter alphabet injected through a user-defined Similarity",
-        text: "Every r x c matrix (r,c <= 3 quick, <= 4 thorough) over {0, 1/4, 1, -1/2} (and up to 2x2 over alphabets with +inf / -inf) is injected through a user-supplied Similarity on disjoint, interleaved, equal and overlapping id assignments and on ids that collide under key-packing schemes, each case preceded by a larger warm-up comparison on the same thread, on a decoded ontology whose sets contain obsolete / replaced terms, with the second set living on a twin Ontology instance whose terms carry other data (the similarity must be handed the sets' own terms), and for sets of up to 65 535 terms; funSimAvg/funSimMax/BMA through HpoSet::similarity, GroupSimilarity::calculate and SimilarityCombiner::calculate must equal the documented combination, cached == uncached bit for bit (also with one cache reused for (A,B),(B,A),(A,B)), symmetric tables give order-independent results, empty sets give 0.",
+        text: "Every r x c matrix (r,c <= 3 quick, <= 4 thorough) over {0, 1/4, 1, -1/2} (and up to 2x2 over alphabets with +inf / -inf) is injected through a user-supplied Similarity on disjoint, interleaved, equal and overlapping id assignments and on ids that collide under key-packing schemes, each case preceded by a larger warm-up comparison on the same thread, on a decoded ontology whose sets contain obsolete / replaced terms, with the second set living on a twin Ontology instance whose terms carry other data (the similarity must be handed the sets' own terms), and for sets of up to 65 535 terms; funSimAvg/funSimMax/BMA (also selected by name) through HpoSet::similarity, GroupSimilarity::calculate and SimilarityCombiner::calculate must equal the documented combination, also for medium shapes up to 100x100 and for a user-supplied combiner, cached == uncached bit for bit (also with one cache reused for (A,B),(B,A),(A,B)), symmetric tables give order-independent results, empty sets give 0.",
         note: "Dyadic entries make the reference exact up to the final division." },
     Meta { id: "C06", level: MC, design_ref: "DESIGN.md §3 C06", technique: "exhaustive sweep of all admissible (N,K,n,k) below a bound realised through real ontologies; exact big-integer hypergeometric reference",
-        text: "A staircase annotation layout realises every admissible (N,K,n,k) for N <= 30 (quick; 64 thorough) for genes, OMIM and ORPHA, plus populations straddling the 170-entry factorial table, log-domain slices up to N = 2000 (3000), tails across the normal / subnormal f64 border down to underflow, and a 100 000-leaf background whose count products exceed 32 bits; the same sweep on a decoded ontology with obsolete / replaced leaves; background and sample are passed as exact-size iterators, filtering adapters, Vec and &HpoSet; count, p-value (exact big-integer tail), fold enrichment, one-record-per-linked-annotation, 0<=p<=1 and monotonicity in k are checked.",
+        text: "A staircase annotation layout realises every admissible (N,K,n,k) for N <= 30 (quick; 64 thorough) for genes, OMIM and ORPHA, plus populations straddling the 170-entry factorial table, log-domain slices up to N = 2000 (3000), tails across the normal / subnormal f64 border down to underflow, a 100 000-leaf ontology (backgrounds of 4097 .. 100 000 leaves with non-trivial tails; count products beyond 32 bits), hierarchies with `&ontology` as background, spread record ids; the same sweep on a decoded ontology with obsolete / replaced leaves; background and sample are passed as exact-size iterators, filtering adapters, Vec and &HpoSet; count, p-value (exact big-integer tail), fold enrichment, one-record-per-linked-annotation, 0<=p<=1 and monotonicity in k are checked.",
         note: "p-values compared with rtol 1e-9 against exact rationals; range and monotonicity strict." },
     Meta { id: "C07", level: MC, design_ref: "DESIGN.md §3 C07", technique: "bounded exhaustive exploration of ontologies (deviation-bounded alphabets) through as_bytes/from_bytes, compared through the whole read API and compare()",
-        text: "Ontologies from every constructor (Builder, independent encoder with obsolete/replaced terms, text loader in both stanza orders for flagged terms) over 75 deviations from a base ontology (names: empty, multi-byte, 255/256 bytes, limit inside a character, 'obsolete Foo' without flag, blanks at both ends, for terms, genes, OMIM and ORPHA separately; ids; flags; versions; record shapes; same-named records) taken one, two and three (thorough: four) at a time, plus all small DAG shapes, are serialised and reloaded; the reload must succeed and be observationally identical (names up to the 255-byte limit at a character boundary), compare() must be empty and a second round trip a fixed point.",
+        text: "Ontologies from every constructor (Builder, independent encoder with obsolete/replaced terms, both text loaders, clone, sub_ontology, v1/v2-decoded) over 75 deviations from a base ontology (names: empty, multi-byte, 255/256 bytes, limit inside a character, 'obsolete Foo' without flag, blanks at both ends, for terms, genes, OMIM and ORPHA separately; ids; flags; versions; record shapes; same-named records; dangling replacement; term id 0; lists of up to 300 entries and sections beyond 64 KiB) taken one, two and three (thorough: four) at a time, plus all small DAG shapes, are serialised and reloaded; the reload must succeed and be observationally identical (names up to the 255-byte limit at a character boundary), compare() must be empty and a second round trip a fixed point.",
         note: "One and two deviations from a base ontology (quick), fuller products thorough." },
     Meta { id: "C08", level: "fault_enumeration", design_ref: "DESIGN.md §3 C08", technique: "independent encoder conformance over all record orders + exhaustive truncation/extension/version-byte fault enumeration on the real decoder",
-        text: "Files produced by an encoder written from the documented layout (validated byte-for-byte against the shipped example files) must decode to exactly the described ontology for v1, v2, v3 in every record order, including names at the size limits; every proper prefix, every listed suffix, every other version byte of every such file, and every unsupported header in front of a v1 body, must be rejected (Err or documented panic), never returned as an ontology.",
+        text: "Files produced by an encoder written from the documented layout (validated byte-for-byte against the shipped example files) must decode to exactly the described ontology for v1, v2, v3 in every record order and every order of the ids inside a record, including names at the size limits, large v1/v2 files and other header dates; layouts the format table leaves open (a record per link, an id twice) are refused or decode self-consistently; every proper prefix, every listed suffix and every single-byte suffix, every unsupported version byte of every such file must be rejected (Err or documented panic), never returned as an ontology.",
         note: "Encoder is trusted only after reproducing the records of tests/example*.hpo; suffix alphabet listed in the evidence." },
     Meta { id: "C09", level: MC, design_ref: "DESIGN.md §3 C09", technique: "bounded exhaustive exploration of fact sets rendered as JAX text files in all stanza/row orders with deviation-bounded distractors",
-        text: "Fact sets are rendered into hp.obo, phenotype.hpoa, genes_to_phenotype.txt / phenotype_to_genes.txt in every stanza and row order with all single and pairs of 28 distractors (NOT rows, comments, Typedef stanzas, DECIPHER rows, trailing/minimal columns, optional hpoa columns filled with row-dependent values or cut off after hpo_id, a file without header block in every stanza order, tags and flags between id and name, header / comment lines of up to 100 000 bytes, is_a lines with trailing modifiers, term names of up to 1000 bytes, extra tags, tags between is_a lines, explicit is_obsolete: false, ': ' in names, non-ASCII, the same numeric id as OMIM and ORPHA disease); both loaders must produce exactly the reference ontology, which must equal the Builder-built and binary-loaded one.",
+        text: "Fact sets are rendered into hp.obo, phenotype.hpoa, genes_to_phenotype.txt / phenotype_to_genes.txt in every stanza and row order with all single and pairs of 34 distractors (NOT rows, comments, Typedef stanzas, DECIPHER rows, trailing/minimal columns, optional hpoa columns filled with row-dependent values or cut off after hpo_id, a file without header block in every stanza order, tags and flags between id and name, header / comment lines of up to 100 000 bytes, is_a lines with trailing modifiers, term names of up to 1000 bytes, extra tags, tags between is_a lines, explicit is_obsolete: false, ': ' in names, non-ASCII, the same numeric id as OMIM and ORPHA disease); both loaders must produce exactly the reference ontology, which must equal the Builder-built and binary-loaded one.",
         note: "Only constructs occurring in JAX releases are generated." },
     Meta { id: "C10", level: MC, design_ref: "DESIGN.md §3 C10", technique: "exhaustive sweep of the id space (all 10^7 ids, borders, strided u32) and of all short query strings against set/map reference",
-        text: "For ontologies over border, block-boundary (2^k, j*2^16, j*2^20 and neighbours), dense and sparse id sets (up to 270 271 terms) and for ontologies decoded from binary v1-v3 and hp.obo in every record order, hpo(id) is evaluated for every id of the 10^7 id space plus the u32 borders and must be Some exactly for added ids with the right data; iteration agrees with len(), also for partly consumed iterators (count, size_hint, nth, skip, last); gene/disease lookups by id, symbol and every query string over a 5-letter alphabet (non-ASCII included) up to length 3 return exactly the reference result, on two ontologies with the same record ids but different symbols / names queried alternately and on the decoded form (records without terms included).",
+        text: "For ontologies over border, block-boundary (2^k, j*2^16, j*2^20 and neighbours), dense and sparse id sets (up to 270 271 terms) and for ontologies decoded from binary v1-v3 and hp.obo in every record order, hpo(id) is evaluated for every id of the 10^7 id space plus the u32 borders and must be Some exactly for added ids with the right data (name, flags, replacement, parents), also on clones and alternating between two live ontologies; iteration agrees with len(), also for partly consumed iterators (count, size_hint, nth, skip, last); gene/disease lookups by id, symbol and every query string over a 5-letter alphabet (non-ASCII included) up to length 3 return exactly the reference result, on two ontologies with the same record ids but different symbols / names queried alternately and on the decoded form (records without terms included).",
         note: "Full 2^32 sweep only in the thorough tier." },
     Meta { id: "C11", level: MC, design_ref: "DESIGN.md §3 C11", technique: "bounded exhaustive exploration: all labelled DAGs x all ordered pairs against BFS distances",
-        text: "distance_to_ancestor/path_to_ancestor/distance_to_term/path_to_term of every ordered pair of terms of every labelled DAG on <=5 (quick) / 6 (thorough) nodes are compared with BFS distances on the reference model; returned paths must be real parent/child walks of exactly the minimal length ending in the target; symmetry and absence are checked; also on decoded graphs with flagged terms, structured large graphs (a chain of 300 terms crossing every 8-bit depth counter) and sequences of ontologies built at the same address.",
+        text: "distance_to_ancestor/path_to_ancestor/distance_to_term/path_to_term of every ordered pair of terms of every labelled DAG on <=5 (quick) / 6 (thorough) nodes are compared with BFS distances on the reference model; returned paths must be real parent/child walks of exactly the minimal length ending in the target; all six-term DAGs in topological numbering, chains of 1100 / 2100 terms and a ladder with 2^14 routes; path queries asked before and after distance queries; symmetry and absence are checked; also on decoded graphs with flagged terms, structured large graphs (a chain of 300 terms crossing every 8-bit depth counter) and sequences of ontologies built at the same address.",
         note: "Builder and binary v3 paths; bounded DAG size." },
     Meta { id: "C12", level: MC, design_ref: "DESIGN.md §3 C12", technique: "exhaustive operation-sequence exploration of HpoGroup (all insertion histories to depth 6, BFS with visited set deeper) against BTreeSet",
         text: "Every insertion sequence over a 5-id alphabet up to length 6 is executed on a live HpoGroup and compared step by step with a BTreeSet (return value, contains, len, iter order, get); all constructors on all short sequences; all 64x64 operand pairs for every operator form plus sizes across the inline limit of 30 and asymmetric operands (16..64 ids against every subset of <= 2 members / gap ids); ancestor queries on all ordered pairs of all DAGs <=4 (Builder, decoded with flags, a chain of 300, terms of two Ontology instances) against set algebra on reference closures; iterator protocol (count / size_hint / nth / skip / last after k items) on every group and term iterator.",
@@ -66,7 +66,7 @@ pub const ALL: &[Meta] = &[
         text: "For every rank order of the pairwise distances of n<=5 sets, every merge history for n = 6, 7 (8 thorough), infinite, extreme, mixed-sign and all-negative distances, tiny (2^-100), subnormal and huge magnitudes, deliberately equal non-minimal distances, related, empty, overlapping, nested and equal input sets, handed in through Vec / filter / flatten / from_fn / chain (all four linkage methods) the dendrogram must have n-1 merges forming a binary tree, sizes adding up, indices a permutation, each merge the closest pair at the reported distance, distances to new clusters following the method's rule (for union: the callback applied to exactly the union, every set handed to the callback well formed), all views of the result (rev, len after k items, nth, &linkage, owned iterators) agreeing, and the distance callback asked for each unordered pair exactly once initially.",
         note: "Ties are counted and excluded from exact comparison, as the property states." },
     Meta { id: "C18", level: MC, design_ref: "DESIGN.md §3 C18", technique: "bounded exhaustive edit-history exploration (all edit sequences of length <=2 from several bases) against a fact-set diff",
-        text: "From several base ontologies every applicable single edit and every pair (thorough: triple) of edits (rename, parent add/remove, obsolete flip, replacement set/clear/change, term add/remove, record rename, annotation add/remove, record add/remove) is applied; compare() on decoder-built (ascending and descending lists inside the file), Builder-built and 66 000-term pairs must report exactly the fact-set diff, be empty for self and for the binary round trip of every reached ontology (records sharing a name included), and mirror when the arguments are swapped.",
+        text: "From several base ontologies (also with one numeric id in several kinds and with lists of 31..40 entries) every applicable single edit and every pair (thorough: triple) of edits (five kinds of rename, parent add/remove, obsolete flip, replacement set/clear/change, term add/remove, record rename, annotation add/remove, record add/remove) is applied; compare() on decoder-built (ascending and descending lists inside the file), Builder-built and 66 000-term pairs must report exactly the fact-set diff, be empty for self and for the binary round trip of every reached ontology (records sharing a name included), and mirror when the arguments are swapped.",
         note: "Replacement targets exist in both ontologies." },
     Meta { id: "C19", level: MC, design_ref: "DESIGN.md §3 C19", technique: "bounded exhaustive exploration: all labelled DAGs over {1,118}+k terms (also with a root removed) against the documented default rules",
         text: "For every labelled DAG over HP:1, HP:118 and up to 3 (4 thorough) further terms (ids below, between and above 118; non-root terms flagged obsolete / replaced in turn), also with either root missing, via Builder::build_with_defaults, from_bytes and from_standard: build fails exactly when a root is missing; modifier roots, categories, is_modifier and per-term categories (ascending) equal the documented rules, also for structured large graphs supplied leaf-first, for every sequence of <= 3 calls of the public setters / list mutators on an ontology built without defaults, and for ontologies built one after the other at the same address.",
